@@ -11,7 +11,7 @@ from common import ModelError, R, Rmat, flmat, max_rel_err
 
 from common import wiring_pre_build as pre_build  # noqa: E402,F401
 
-LEAN_MODULES = ["PyomaVerif.Props.C03", "PyomaVerif.Props.C01", "PyomaVerif.Props.WiringRun", "PyomaVerif.Props.C03C11", "PyomaVerif.Props.C03E2E", "PyomaVerif.Props.C03Stored", "PyomaVerif.Props.WiringClass", "PyomaVerif.Props.WiringCalls", "PyomaVerif.Props.C03Split", "PyomaVerif.Mutants.MsGather"]
+LEAN_MODULES = ["PyomaVerif.Props.C03", "PyomaVerif.Props.C01", "PyomaVerif.Props.WiringRun", "PyomaVerif.Props.C03C11", "PyomaVerif.Props.C03E2E", "PyomaVerif.Props.C03Stored", "PyomaVerif.Props.WiringClass", "PyomaVerif.Props.WiringCalls", "PyomaVerif.Props.C03Split", "PyomaVerif.Mutants.MsGather", "PyomaVerif.Props.C03Excite", "PyomaVerif.Props.C01Excite"]
 THEOREMS = [
     # the split composed with the identification: user's datasets + ref_ind -> pre_multisetup -> what SSI_multi_setup hands to
     # build_hank -> C03_e2e_* (Props/C03Split.lean, Lemmas/MsGather.lean, Model/MsGather.lean); "after every preprocessing step"
@@ -46,6 +46,9 @@ THEOREMS = [
     "PV.C03E2E.DatSetup.ok",
     "PV.C03E2E.C03_e2e_cov",
     "PV.C03E2E.C03_e2e_dat",
+    # the per-setup rank condition (CovSetup.gam / DatSetup.gam) derived from the property's premises
+    "PV.C03Excite.C03_setup_gam_of_premises",
+    "PV.C01Excite.C01_excited_of_modal",
     "PV.C03E2E.Ex.cov0",
     "PV.C03E2E.Ex.cov1",
     "PV.C03E2E.Ex.hqr",
